@@ -1056,6 +1056,7 @@ def _pat_bytes(M, p):
     if isinstance(v, Str): return list(v.b)
     raise Unsupported('pattern %r' % (p,))
 def _match_at(s, i, pat):
+    if isinstance(s, SymStr): raise Unsupported('substring test on an opaque string')
     if i + len(pat) > len(s.b): return False
     return b_and(*[v_eq(s.b[i + j], pat[j]) for j in range(len(pat))])
 @reg(r'^core::str::<impl str>::starts_with$')
@@ -1368,8 +1369,28 @@ def _hm_iter(M, fr, n, a):
 @reg(r'^std::collections::HashSet::iter$|^<&std::collections::HashSet<.*> as std::iter::IntoIterator>::into_iter$')
 def _hs_iter(M, fr, n, a):
     return IterV(hash_order(M, elem_refs(M, a[0]), 'set'), 'ref')
-@reg(r'^std::collections::hash_map::Entry|^std::collections::HashMap::entry$')
-def _hm_entry(M, fr, n, a): raise Unsupported('HashMap entry API')
+@reg(r'^std::collections::(HashMap|BTreeMap)::entry$')
+def _hm_entry(M, fr, n, a):
+    # entry(key): occupied (index of the equal key; forks on key equality) or vacant
+    hm = D(M, a[0]); i = hm_lookup(M, fr, hm, a[1])
+    r = a[0]
+    while isinstance(M.get(r.cell, r.path), Ref): r = M.get(r.cell, r.path)
+    return Agg('hm::Entry', [r, i, a[1]])
+@reg(r'^std::collections::(hash_map|btree_map)::Entry::<.*>::(or_insert_with|or_insert|or_default|or_insert_with_key)(::<.*>)?$|^std::collections::(hash_map|btree_map)::Entry::(or_insert_with|or_insert|or_default|or_insert_with_key)$')
+def _hm_entry_or_insert(M, fr, n, a):
+    e = a[0]; r, i, key = e.f; hm = M.get(r.cell, r.path); op = re.search(r'Entry(?:::<.*>)?::(\w+)', n).group(1)
+    if i < 0:
+        if op == 'or_insert': v = a[1]
+        elif op == 'or_insert_with': v = M.call_closure(fr, a[1], [])
+        elif op == 'or_insert_with_key': v = M.call_closure(fr, a[1], [Ref(Cell(key))])
+        else:
+            m = re.search(r'Entry::<[^,]*, (.*?)(?:, .*)?>::or_default', M.cur_callee); t = m.group(1) if m else ''
+            v = 0 if t in INT_W else (VecV() if t.startswith(('std::vec::Vec', 'std::collections')) else (Str('') if t == 'std::string::String' else None))
+            if v is None: raise Unsupported('or_default of ' + t)
+        hm.items.append(Agg('()', [key, v])); i = len(hm.items) - 1
+    return Ref(r.cell, r.path + (('i', i), ('f', 1)))
+@reg(r'^std::collections::hash_map::Entry|^std::collections::btree_map::Entry')
+def _hm_entry_other(M, fr, n, a): raise Unsupported('HashMap entry API: ' + n)
 
 # ------------------------------------------------------------------ petgraph by contract
 @reg(r'^petgraph::(prelude|stable_graph)::StableGraph::new$|^petgraph::stable_graph::StableGraph::<.*>::new$|^petgraph::(prelude|stable_graph)::StableGraph::with_capacity$')
